@@ -96,7 +96,7 @@ func ApplyDelta(target, base plumbing.EncodedObject, delta *bytes.Buffer) (err e
 // An error will be returned if delta is corrupted (ErrInvalidDelta) or an action command
 // is not copy from source or copy from delta (ErrDeltaCmd).
 func PatchDelta(src, delta []byte) ([]byte, error) {
-	if len(src) == 0 || len(delta) < minDeltaSize {
+	if len(delta) < minDeltaSize {
 		return nil, ErrInvalidDelta
 	}
 
